@@ -168,6 +168,10 @@ fn one_case(rng: &mut Rng, n: usize, data: usize, rep: &mut Report) {
     g.snap();
     let line = g.line();
     monitor(&g, rep, &line);
+    // building, queueing, sending and receiving never panic, whatever the history of the slot
+    if let Some(k) = g.outs.iter().position(|o| o == "panic") {
+        rep.fail("c04r/panic", &format!("operation {} ({}) panicked", k, g.ops[k].split(',').next().unwrap_or("")), &line);
+    }
     let sends = g.ops.iter().filter(|o| o.starts_with("ts,")).count();
     rep.hit(&format!("sends~{}", (sends / 4) * 4));
     if sends >= 3 {
